@@ -161,8 +161,8 @@ class World:
         except Exception as e:
             res.real = ('exc', type(e).__name__)
             res.exc = e
-            if isinstance(e, UserError) and e is not it.user_exc:
-                res.violations.append(viol('rollback.exception_identity', {'kind': 'UserError'}))
+            if it.pending is not None and e is not it.pending:
+                res.violations.append(viol('rollback.exception_identity', {'kind': type(it.pending).__name__}))
         finally:
             if fault is not None:
                 res.fault = faults.end()
